@@ -111,6 +111,15 @@ def writer_handles(fn: FuncInfo) -> list[WriterHandle]:
                                 names.append(sub.target.elts[-1].id)
                         elif dotted(it) == cont and isinstance(sub.target, ast.Name):
                             names.append(sub.target.id)
+                        else:
+                            # zip(cont, ...) / enumerate(zip(cont, ...)): the target at the container's position
+                            z, tg = it, sub.target
+                            if isinstance(z, ast.Call) and dotted(z.func) == "enumerate" and z.args and isinstance(tg, ast.Tuple) and len(tg.elts) == 2:
+                                z, tg = z.args[0], tg.elts[1]
+                            if isinstance(z, ast.Call) and dotted(z.func) == "zip" and isinstance(tg, ast.Tuple):
+                                for a_, t_ in zip(z.args, tg.elts):
+                                    if dotted(a_) == cont and isinstance(t_, ast.Name):
+                                        names.append(t_.id)
                 for nm in names or [cont]:
                     out.append(WriterHandle(fn, nm, call, "list", cont))
             else:
